@@ -1,10 +1,53 @@
-HOOK_COMMITS = []
+HOOK_COMMITS = ['da136f3', '8dfdeaa']
 NA = lambda i, r: {'property_id': i, 'reason': r}
+_T = 'CBMC 6.11 bounded symbolic execution of the real translation units (goto-cc build from /repo on every run); '
+_NOTE = ('Trusted base: CBMC 6.11 C semantics, its SAT/SMT back ends and its models of malloc/free/memcpy/strlen etc.; the harness stubs listed in the evidence file; '
+         'the reference/ideal models in /verif/harness and /verif/ref. Every harness carries a reachability witness that the solver must report reachable (vacuity guard); '
+         'counterexamples are replayed natively (gcc + ASan/UBSan) before a VIOLATION is printed. Claims hold only within the bounds stated in the evidence (coverage.bounds).')
+
+
+def C(i, technique, text, category='model_checking'):
+    return {'id': i, 'technique': _T + technique, 'text': text, 'note': _NOTE, 'category': category}
+
+
 CHECKS = [
- {'id': 'C16',
-  'technique': 'CBMC bounded symbolic execution of qencode.c per (codec, length), all bytes symbolic, vs RFC reference; SAT',
-  'text': 'For every payload up to the stated length every byte is a solver variable: round trip, exact output format (RFC 4648 reference, lowercase hex, URL safe set) and decoder leniency are proved for all inputs within the bound; nothing is claimed beyond it.',
-  'note': 'Trusted: CBMC 6.11 C semantics and its malloc/strdup/strlen models, the reference encoders in ref/encref.h. malloc assumed not to fail.'},
+ C('C01', 'inductive step from every valid LLRB (shape, colouring) up to the node bound (driver-enumerated), symbolic key/values, vs ideal sorted map; SAT',
+   'For every valid tree shape up to the bound and every key position (each present key, each gap) one put/remove/get/min/max/size/clear is proved to act as on an ideal sorted map, for default, user and reversed comparators and for binary and string keys. Base case + step cover histories of any length whose trees stay within the bound; larger trees are outside the claim.'),
+ C('C02', 'invariant-closure queries with an independent iterative LLRB checker; qtreetbl_check agreement on all valid and all small invalid coloured trees; counting comparator; SAT',
+   'Every put/remove from every valid shape within the bound yields a valid LLRB; qtreetbl_check() accepts every valid tree up to bound+1 and rejects every invalid coloured tree up to a small size; lookups stay within 2*log2(n+1) comparisons.'),
+ C('C03', 'walk from over-approximated history state: table epoch, node stamps and parent links arbitrary under an inductive invariant; SAT',
+   'The traversal bookkeeping (8-bit epoch, per-node stamp, per-node parent link) is made arbitrary instead of exploring histories, so walks after >256 traversal starts, abandoned walks, and root changes are all covered within the node bound; the invariant "no stamp exceeds the epoch" is proved to be preserved by every operation.'),
+ C('C04', 'find_nearest from the same over-approximated history states, termination by unwinding assertions replayed natively under a watchdog; SAT',
+   'Floor semantics, history independence and termination for every probe position in every valid shape within the bound with arbitrary stale links (including on the root); continuation with getnext visits every key once when no walk is unfinished.'),
+ C('C05', 'inductive step from every chain layout of n<=3(4) nodes over range<=3(4), hash stubbed by a solver-chosen table over all key bytes; SAT',
+   'put/putstr/putint/get*/remove/clear/size/getnext from every valid table state within the bound with all collision patterns (the hash is an arbitrary function of the key bytes) behave as an ideal map; walk returns every key once.'),
+ C('C09', 'inductive step from every well-formed list of n<=4(5) nodes, index over the whole int range; queue/stack/grow on top; SAT',
+   'Every list operation from every well-formed list within the bound with any int index acts as on an ideal sequence; refused calls change nothing; queue FIFO, stack LIFO, grow buffer concatenation.'),
+ C('C10', 'inductive step from every vector state with capacity<=3(5), element sizes {1,3,...}, index over the whole int range; SAT',
+   'Every vector operation from every valid state within the capacity bound acts as on an ideal array under each growth policy; resize to any capacity incl. zero keeps the vector usable.'),
+ C('C11', 'the one-step queries of the containers re-run with pointer/bounds/overflow checks, memcpy-overlap precondition and leak ledger; SAT',
+   'No out-of-object access, use after free, overlapping memcpy, signed overflow or leak on any path of any one-step query of tree table, hash table, list family, vector within their bounds (static hash table and list table: see not-applicable/pending notes).'),
+ C('C12', 'per entry point: caller buffers scribbled+freed before read-back, returned copies checked with __CPROVER_same_object and after container release; SAT',
+   'Containers keep private copies and hand out independent copies, for every entry point of the covered containers and all byte contents within the bounds.'),
+ C('C14', 'every public function on a thread-safe container under a counting lock model with an allocation failure at each position; SAT',
+   'The lock depth after each call equals the depth before it on every path reachable by arguments, state or allocation failure within the bounds.'),
+ C('C15', 'allocation-failure position enumerated by the driver (1st..3rd, all-from-k), everything else symbolic; failure => state equals pre-state ghost; SAT',
+   'For every covered operation and failure position the call either succeeds with the ideal effect or reports failure with contents unchanged, invariant intact, nothing leaked.'),
+ C('C16', 'per (codec, length) all bytes symbolic vs RFC references; query round trip through the real parser; SAT',
+   'Round trip, exact output format and decoder leniency for all payloads up to the length bound.'),
+ C('C17', 'decoders and query parser on arbitrary NUL-terminated input in exactly sized heap buffers with pointer checks and unwinding assertions; SAT',
+   'Memory safety and termination of the in-place decoders for every input up to the length bound (parsers: see evidence for the families covered).'),
+ C('C18', 'per (algorithm, length) all bytes symbolic vs independent references through cbmc --z3; MD5 compositional (compression function for arbitrary state/block + padding logic with the compression function abstracted); SMT lemmas for the FNV primes',
+   'qlibc hashes equal their published algorithms for every input of every length up to the bound; reads stay inside the buffer; file digest covers exactly the requested byte range.'),
+ C('C19', 'per (function, lengths) all bytes symbolic vs reference specifications written from the documentation, pointer checks on exactly sized buffers; SAT',
+   'Each covered string routine equals its reference for every input up to the length bound and never writes outside its buffers.'),
 ]
 _claimed = set(c['id'] for c in CHECKS)
-NOT_APPLICABLE = [NA('C%02d' % i, 'check not built yet in this revision (work in progress; see DESIGN.md)') for i in range(1, 21) if 'C%02d' % i not in _claimed]
+_PENDING = {
+ 'C06': 'static hash table step queries are being brought to a verdict (see DESIGN.md section C06); not claimed in this revision',
+ 'C07': 'depends on the C06 queries; not claimed in this revision',
+ 'C08': 'list table family under construction; not claimed in this revision',
+ 'C13': 'interleaving-injection harness not built yet in this revision',
+ 'C20': 'parser families under construction; not claimed in this revision',
+}
+NOT_APPLICABLE = [NA(i, r) for i, r in sorted(_PENDING.items()) if i not in _claimed]
